@@ -55,6 +55,14 @@ CHECKS.update(
         note="Rule table in pvlib/harness/c06.py is the oracle (transcribed from docs/user/nonmult.rst and the property statement). Exact arithmetic; real exp/log accuracy outside; scales assumed > 0.",
         design="4/C06",
     ),
+    C08=dict(
+        text="Name resolution of the real registry: (SX) every string over the alphabet of two generated colliding registries up to length 5 and the prefix x unit x plural cross product of the default registry "
+        "are resolved; the reading must be allowed by the documented rule, undefined strings must raise, name/symbol must be the definition's, the answer must not depend on earlier lookups, and the root magnitude is "
+        "proved equal to x * prefix * scale for all symbolic values (factor applied exactly once). (CrossHair) parse_unit_name is confirmed over all paths against the rule for every unicode string of length <= 4.",
+        note="Ambiguous strings: any valid reading accepted (determinism + validity only). CrossHair could not execute get_name with a symbolic key (internal error), so get_name/get_symbol/contains are covered by the enumerated domains only.",
+        design="4/C08",
+        technique=SX + "; plus CrossHair (symbolic strings, z3) for parse_unit_name",
+    ),
     C09=dict(
         text="format(unit/quantity, spec) of the real formatters (D, C, P, H, L, Lx; long and ~) on units with solver-chosen integer exponents (every value in [-3,3]) and symbolic magnitudes rendered as placeholder literals: "
         "independent per-format layout recognisers require each unit exactly once, on the correct side, with exactly its exponent (omitted iff +-1), parentheses where a single denominator has several terms; "
